@@ -31,7 +31,9 @@ CONSTANT Dev      \* subset of {"parser-init-unsynchronised", "load-decoder-shar
 Kinds == {"plain", "sort", "sortby", "interp", "yamlrt", "load", "multidoc", "reduce", "litupd", "commentdoc", "csv", "regexa", "regexb", "interpb", "suba", "subb",
           \* tagset / tagupd: `x tag = v` and `y tag |= v` come from ONE lexer rule - a tree parsed earlier must not change when the other form is parsed later;
           \* xmlc / xmlp: one XML encoder prints a document with a leading comment and then one without - it keeps nothing from the first
-          "tagset", "tagupd", "xmlc", "xmlp"}
+          "tagset", "tagupd", "xmlc", "xmlp",
+          \* envsubst with options: lexing it must not write process-wide state
+          "envsubstopt"}
 Steps(k) == CASE k = "load" -> <<"parse", "decode", "eval", "loadfile", "encode">>
               [] k \in {"interp", "interpb", "regexa", "regexb", "suba", "subb"} -> <<"parse", "decode", "eval", "parse", "encode">>        \* string interpolation parses again while evaluating
               [] k = "csv" -> <<"parse", "decode", "snippet", "eval", "encode">>          \* cell values are typed by parsing snippets
